@@ -55,6 +55,10 @@ void calcVarExpressed(double ss, dvector *eval, dvector *varexp)
 /* ss is the sum of squares, eval = eigenvalue  varexp is an object that is resized for each component */
 {
   for(size_t i = 0; i < eval->size; i++){
+    if(ss <= 0.f){ /* no variance at all (constant data): nothing can be explained */
+      DVectorAppend(varexp, 0.f);
+      continue;
+    }
     DVectorAppend(varexp, (eval->data[i]/ss) * 100);
     #ifdef DEBUG
     printf("Variance expressed for PC %u\t %f\n", (unsigned int)i, (getDVectorValue(eval, i)/ss) * 100);
@@ -255,6 +259,21 @@ void PCA(matrix *mx, int scaling, size_t npc, PCAMODEL* model, ssignal *s)
       /* copy the vector to the score mx.t_old for computing loadings */
       for(i = 0; i < E->row; i++)
         t->data[i] = E->data[i][j];
+
+      /* A null start vector makes the iteration 0/0: take the first column that is not null. */
+      if(DVectorDVectorDotProd(t, t) == 0.f){
+        for(j = 0; j < E->col; j++){
+          for(i = 0; i < E->row; i++)
+            t->data[i] = E->data[i][j];
+          if(DVectorDVectorDotProd(t, t) > 0.f)
+            break;
+        }
+      }
+
+      /* The residual matrix is null: more components were requested than the rank of the data.
+       * The remaining components do not exist; they are left to zero with zero eigenvalue. */
+      if(DVectorDVectorDotProd(t, t) == 0.f)
+        break;
 
       /* End Step 1 */
 
